@@ -5,4 +5,5 @@ Extraction Language OCaml.
 Extraction "model_C17.ml" current_behaviour code_today repaired repaired_except_pinned
   data_slice slice_read position_and_extent_in_data mk_view view_read view_write view_extent id_array gen_from
   spec_slice spec_domain spec_ids spec_req spec_in_data spec_mk_view spec_view_read spec_view_write inside_window
-  real_count real_offset fis_finite fmul prod a_cells a_shape.
+  real_count real_offset fis_finite fmul prod a_cells a_shape
+  repo_e3eed7c view_get_value view_set_value arr_get_value arr_set_value spec_get_value spec_set_value spec_value_count.
